@@ -14,7 +14,12 @@ FUNCTIONS = {
 }
 FUNCTIONS['kripke'] = ['Kripke.__init__', 'Kripke.labels', 'Kripke.states', 'Kripke.next', 'Kripke.transitions_iter',
                        'Kripke.transitions', 'Kripke.clone', 'Kripke.get_substructure']
+FUNCTIONS['ctl'] = ['_checkAtomicProposition', '_checkNot', '_checkEX', '_checkOr', '_checkStateFormula']
 PROPERTY_FUNCTIONS = {
+    'C01': FUNCTIONS['ctl'] + FUNCTIONS['kripke'] + FUNCTIONS['graph'],
+    'C07': FUNCTIONS['ctl'] + ['Kripke.clone', 'Kripke.labels', 'Kripke.states', 'Kripke.next', 'Kripke.transitions_iter',
+                               'DiGraph.get_subgraph', 'DiGraph.get_reversed_graph', 'DiGraph.get_reachable_set_from'],
+    'C19': FUNCTIONS['ctl'] + ['Kripke.labels', 'Kripke.states', 'Kripke.next', 'Kripke.transitions_iter'],
     'C13': FUNCTIONS['graph'],
     'C14': FUNCTIONS['kripke'] + FUNCTIONS['graph'],
 }
@@ -24,6 +29,12 @@ TRUSTED = {
     '*': ['CPython 3.12 semantics as stated in E1-E6 (DESIGN.md 2.2)', 'z3 4.x / cvc5 solvers',
           'pyvc VC generator (vf/pyvc) - mitigated by planted-defect self-test and vacuity probes'],
     'C13': [],
+    'C01': ['documented CTL semantics of the restricted operators in fixpoint form (vf/pyvc/formula.py semantic_axioms; CGP00 ch.4; TB1-TB3) - audited end to end by the bounded check against the path-based reference',
+            'contract of get_equivalent_restricted_formula (C05, bounded) and injectivity of printing (C09, bounded): memo keys are formula trees',
+            '_checkEU, _checkEG and modelcheck bodies are NOT under proof (contracts stated and used modularly; bounded only); compute_SCCs contract bounded (C12)',
+            'precondition: Python None is not a state (KF-C19-1)'],
+    'C07': ['frame obligations cover the CTL labelling functions proved so far; LTL/CTL* call graphs bounded only'],
+    'C19': ['safety obligations cover the CTL labelling functions proved so far; LTL/CTL* call graphs bounded only'],
 }
 
 
